@@ -339,23 +339,25 @@ def shard_traces(path, k, outdir, limit=None):
         # deterministic thinning: keep every traces whose index falls on the stride
         stride = len(groups) / float(limit)
         groups = [groups[int(i * stride)] for i in range(limit)]
-    total = sum(len(g) for g in groups)
+    # balance the shards by estimated cost (validation is roughly quadratic in the length of a trace):
+    # longest traces first, each to the currently cheapest shard
     k = max(1, min(k, len(groups)))
-    per = total / k
+    order = sorted(range(len(groups)), key=lambda i: -len(groups[i]))
+    load = [0] * k
+    members = [[] for _ in range(k)]
+    for i in order:
+        s = min(range(k), key=lambda j: load[j])
+        members[s].append(i)
+        load[s] += len(groups[i]) ** 2 + 50
     paths = []
-    gi = 0
     for s in range(k):
+        if not members[s]:
+            continue
         p = os.path.join(outdir, f"shard_{s}.ndjson")
-        n = 0
         with open(p, "w") as g:
-            while gi < len(groups) and (n < per or s == k - 1):
-                g.writelines(groups[gi])
-                n += len(groups[gi])
-                gi += 1
-        if n:
-            paths.append(p)
-        else:
-            os.remove(p)
+            for i in sorted(members[s]):
+                g.writelines(groups[i])
+        paths.append(p)
     return paths, idmap, mult, len(groups)
 
 
